@@ -314,9 +314,20 @@ def build(case):
 def check(case: dict):
     ds = build(case)
     items = [{"g": it["g"], "sol": it["sol"]} for it in case["items"]]
+    if case.get("loaded") and items:
+        # a dataset that was stored and loaded back is a dataset like any other (its arrays have whatever types the storage format uses)
+        from maze_dataset import MazeDataset
+
+        ser = {"full": ds._serialize_full, "minimal": ds._serialize_minimal, "soln_cat": ds._serialize_minimal_soln_cat}[case["loaded"]]
+        ds = call("C08:harness:load", MazeDataset.load, call("C08:harness:serialize", ser))
+        got0 = [_struct(m) for m in ds.mazes]
+        if got0 != [_item_struct(it) for it in items]:
+            raise core.Discard()  # a faulty round trip is C05's business; filters are judged on the dataset actually loaded
     applied, interesting, labels, _, _ = run_sequence(ds, items, case["ops"])
     if len({it.get("dtype") for it in case["items"]}) > 1:
         labels.append("mixed-dtypes")
+    if case.get("loaded"):
+        labels.append("loaded:" + case["loaded"])
     return {"nt": applied >= 2 and interesting, "labels": labels + [f"meta:{case.get('meta')}"]}
 
 
@@ -457,7 +468,10 @@ def _case(draw, n_hi, max_ops):
         f1 = dict(f1, keep_input=True)
         edit = {"f": draw(st.sampled_from(["inplace-reverse", "inplace-extend", "inplace-drop", "inplace-assign"])), "params": {"k": draw(st.integers(0, 3))}}
         out = [f1, edit, f2] + out[:2]
-    return {"n": n, "items": items, "meta": draw(st.sampled_from(["per-maze", "per-maze", "none"])), "ops": out}
+    case = {"n": n, "items": items, "meta": draw(st.sampled_from(["per-maze", "per-maze", "none"])), "ops": out}
+    if draw(st.integers(0, 3)) == 0:
+        case["loaded"] = draw(st.sampled_from(["minimal", "soln_cat", "full"]))
+    return case
 
 
 @st.composite
